@@ -1538,6 +1538,9 @@ class ServerKeyExchange(HandshakeMsg):
             if self.version == (3, 3):
                 self.hashAlg = parser.get(1)
                 self.signAlg = parser.get(1)
+                if self.hashAlg == 0 or self.signAlg == 0:
+                    raise TLSIllegalParameterException(
+                        "Invalid signature algorithm in ServerKeyExchange")
             self.signature = parser.getVarBytes(2)
 
         parser.stopLengthCheck()
@@ -2217,8 +2220,11 @@ class SessionTicketPayload(object):
         if self.version >= 1:
             self._parse_cert_chain(Parser(parser.getVarBytes(3)))
         if self.version >= 2:
-            self.encrypt_then_mac = bool(parser.get(1))
-            self.extended_master_secret = bool(parser.get(1))
+            flags = (parser.get(1), parser.get(1))
+            if flags[0] > 1 or flags[1] > 1:
+                raise ValueError("Malformed ticket")
+            self.encrypt_then_mac = bool(flags[0])
+            self.extended_master_secret = bool(flags[1])
             self.server_name = parser.getVarBytes(2)
         if parser.getRemainingLength():
             raise ValueError("Malformed ticket")
@@ -2519,7 +2525,7 @@ class CompressedCertificate(Certificate):
                 decompressed_msg = decompressor.decompress(
                     compressed_msg, expected_length + 1)
                 if len(decompressed_msg) > expected_length or \
-                        not decompressor.eof:
+                        not decompressor.eof or decompressor.unused_data:
                     raise ValueError("Decompressed message length mismatch")
             elif self.compression_algo == \
                     CertificateCompressionAlgorithm.brotli:
